@@ -118,11 +118,94 @@ class Counter:
         return target.fail(tag, payload)
 
 
+class Memory:
+    class Store:
+        """hosted through managed() without a typeid; shares its class name — hence its typeid 'ManagedStore' —
+        with Disk.Store, but not its public methods"""
+
+        def __init__(self):
+            self._items = []
+
+        def add(self, v):
+            self._items.append(v)
+
+        def size(self):
+            return len(self._items)
+
+        def items(self):
+            return list(self._items)
+
+        def take(self):                 # only Memory.Store
+            return self._items.pop()
+
+
+class Disk:
+    class Store:
+        def __init__(self):
+            self._items = []
+
+        def add(self, v):
+            self._items.append(v)
+
+        def size(self):
+            return len(self._items)
+
+        def items(self):
+            return list(self._items)
+
+        def flip(self):                 # only Disk.Store
+            self._items.reverse()
+
+
+class Widget:
+    """an ad-hoc class: never registered, handed out with managed(Widget(n)) (typeid made up on the fly)"""
+
+    def __init__(self, n):
+        self.n = n
+
+    def value(self):
+        return self.n
+
+    def bump(self):
+        self.n += 1
+        return self.n
+
+
+class Hub:
+    def __init__(self):
+        self._mem = Memory.Store()
+        self._disk = Disk.Store()
+
+    def mem_store(self):
+        from mpservice.multiprocessing.server_process import managed
+        return managed(self._mem)
+
+    def disk_store(self):
+        from mpservice.multiprocessing.server_process import managed
+        return managed(self._disk)
+
+    def widget(self, n):
+        from mpservice.multiprocessing.server_process import managed
+        return managed(Widget(n))
+
+
+class Slow:
+    """a registered class whose constructor takes a moment (Server.create runs constructors under its mutex)"""
+
+    def __init__(self, ms=4):
+        time.sleep(ms / 1000.0)
+
+    def ping(self):
+        return 1
+
+
 def _register():
     from mpservice.multiprocessing.server_process import ServerProcess
     if 'Maker' not in ServerProcess._registry:
         ServerProcess.register('Maker', Maker, method_to_typeid={'typed_list': 'ManagedList'})
         ServerProcess.register('Counter', Counter)
+        ServerProcess.register('Hub', Hub)
+        ServerProcess.register('Slow', Slow)
 
 
 # ----------------------------------------------------------------------------------------------
@@ -265,6 +348,72 @@ class Agent:
         del r
         gc.collect()
         return out
+
+    def c_inplace(self, name, op, arg):
+        """`x op= arg` with x bound to the proxy: what is x afterwards?  (the handle keeps the proxy)"""
+        x = self.h[name]
+        a = decanon(arg, self)
+        try:
+            if op == 'imul':
+                x *= a
+            elif op == 'iadd':
+                x += a
+            else:
+                x |= a
+        except Exception as e:
+            return {'$raised': canon_exc(e)}
+        return canon(x, self, None)
+
+    def c_storm(self, name, n_threads, n_calls, slow_ms, base):
+        """`n_threads` threads call hub.widget(k) `n_calls` times each and use the returned proxy, while one more
+        thread keeps creating `Slow` objects (constructor under the server mutex); every call must give a live
+        proxy that behaves like the Widget itself"""
+        hub = self.h[name]
+        bad, good = [], [0] * n_threads
+        stop = threading.Event()
+
+        def caller(t):
+            for j in range(n_calls):
+                if bad:
+                    return
+                k = base + 1000 * t + j
+                try:
+                    w = hub.widget(k)
+                    got = [type(w).__name__.startswith('AutoProxy'), w.value(), w.bump(), w.value()]
+                    if got != [True, k, k + 1, k + 1]:
+                        bad.append(f'thread {t} call {j}: widget({k}) behaved {got}')
+                        return
+                    del w
+                    good[t] += 1
+                except Exception as e:  # noqa
+                    txt = f'{e.args!r}'
+                    bad.append(f'thread {t} call {j}: widget({k}) raised {type(e).__name__}' +
+                               (txt if len(txt) < 300 else '(… ' + txt[-300:]))
+                    return
+
+        def creator():
+            while not stop.is_set():
+                try:
+                    s = self.manager.Slow(slow_ms)
+                    del s
+                except Exception as e:  # noqa
+                    bad.append(f'creator: {e!r}'[:300])
+                    return
+
+        ts = [threading.Thread(target=caller, args=(t,), daemon=True) for t in range(n_threads)]
+        cr = threading.Thread(target=creator, daemon=True)
+        cr.start()
+        for t in ts:
+            t.start()
+        t_end = time.monotonic() + 15.0          # explicit hang bound for the whole storm
+        for t in ts:
+            t.join(max(0.0, t_end - time.monotonic()))
+        stop.set()
+        cr.join(2)
+        hung = [t.name for t in ts + [cr] if t.is_alive()]
+        if not hung:
+            gc.collect()
+        return {'good': sum(good), 'bad': bad[:3], 'hung': bool(hung)}
 
     def c_setattr(self, name, key, value):
         try:
@@ -571,7 +720,8 @@ class Director:
                         r[int(k)] = {'$bytes': len(x['$bytes']) // 2}
             rec['r'] = r
             rec['dt'] = round(time.monotonic() - t0, 4)
-            hung = isinstance(r, dict) and '$hang' in r
+            hung = (isinstance(r, dict) and '$hang' in r) or (
+                isinstance(r, list) and any(isinstance(x, dict) and x.get('hung') is True for x in r))
             if st.get('new') and not hung:
                 self.note_new(r, st['new'])
                 for name, hid, kind in st['new']:
